@@ -17,7 +17,7 @@ ID = 'C17'
 TITLE = 'bitemporal store: reading as of T sees exactly what had been published by T'
 STATEMENT = ('bi_read(store, asof=T) = per date the latest non-NaN value published with stamp <= T (merge order breaks ties), '
              'no row for dates first published after T; what=0 = first published value; re-merging a stored version changes no read')
-LEAN_FILES = ['Basic', 'TSBasic', 'Bitemp', 'BitempDriver', 'BitempLemmas', 'BitempInv', 'BitempFrames', 'BitempCols', 'BitempFirstS', 'BitempEmb', 'C17']
+LEAN_FILES = ['Basic', 'TSBasic', 'Bitemp', 'BitempDriver', 'BitempLemmas', 'BitempInv', 'BitempFrames', 'BitempCols', 'BitempFirstS', 'BitempEmb', 'BitempH5', 'C17']
 RULE = ('distinct protocol lines (a merge, a read or a spec read inside a publication history) on which the implementation '
         'returned a non-empty frame / series')
 TRUSTED = ['correspondence harness (pv.engine, pv.proto) and generators of pv.props.c17',
@@ -67,6 +67,8 @@ def read_line(t2, what, spelling=None):
 # the spellings of a date that Bi(ts, asof) accepts for the stamp (through dt()); an as-of read at T spelled in any of them must
 # be the as-of read at T (all stamps and read times of the generators are midnights, so every spelling is exact)
 SPELLINGS = ['str', 'str-compact', 'int', 'date', 'timestamp', 'datetime64']
+# spellings that keep a time of day (intraday histories: stamps and read times are whole minutes)
+SPELLINGS_INTRADAY = ['str-minute', 'str-second', 'timestamp', 'datetime64']
 
 
 def spell(t, spelling):
@@ -78,6 +80,10 @@ def spell(t, spelling):
         return int(t.strftime('%Y%m%d'))
     if spelling == 'date':
         return t.date()
+    if spelling == 'str-minute':
+        return t.strftime('%Y-%m-%d %H:%M')
+    if spelling == 'str-second':
+        return t.strftime('%Y-%m-%dT%H:%M:%S')
     if spelling == 'timestamp':
         return pd.Timestamp(t)
     if spelling == 'datetime64':
@@ -117,6 +123,14 @@ def freads_line(t2, sel, width):
 def read_at(t, what):
     """a read at an arbitrary datetime (bump / shift histories: the stamps are not on the 2-day grid)"""
     return '(bitemp read %s I:%d)' % ('N' if t is None else enc(t), what)
+
+
+def read_at_spelled(t, what, spelling):
+    return '(bitemp read %s I:%d %s)' % (enc(t), what, enc(spelling))
+
+
+def merge_at(t, pairs):
+    return '(bitemp merge %s %s)' % (enc(t), enc_ts(pairs))
 
 
 def spec_at(t):
@@ -212,6 +226,28 @@ def history_case(rng, ndates, ordered, idem):
             lines.append(read_line(t, 0))
         tag += '+remerge'
     return dict(tag=tag, lines=lines, ordered=ordered)
+
+
+def intraday_case(rng, ndates):
+    """stamps and read times with a time of day (review s5): versions published 7 hours (and some minutes) apart, several per day,
+    some sharing a stamp; reads one minute before / on / one minute after every stamp, spelled as datetime, 'YYYY-MM-DD HH:MM',
+    ISO seconds, Timestamp, datetime64.  The model compares the microsecond counts, so nothing changes on its side."""
+    nver = rng.choice([2, 3, 4, 5, 6])
+    hist = gen_history(rng, ndates, nver, True)
+    minute = datetime.timedelta(minutes=1)
+    at = lambda k: S0 + k * datetime.timedelta(hours=7) + (k % 3) * 17 * minute
+    ks = sorted(set(k for k, _ in hist))
+    T = [None, at(ks[0]) - minute, at(ks[-1]) + minute]
+    for k in ks:
+        T += [at(k) - minute, at(k), at(k) + minute]
+    lines = []
+    for j, (k, pairs) in enumerate(hist):
+        lines.append(merge_at(at(k), pairs))
+        for t in (T if j == len(hist) - 1 else rng.sample(T, 3)):
+            lines += [read_at(t, -1), spec_at(t), read_at(t, 0)]
+            if t is not None and rng.random() < 0.6:
+                lines.append(read_at_spelled(t, rng.choice([-1, -1, 0]), rng.choice(SPELLINGS_INTRADAY)))
+    return dict(tag='h%d-intraday' % ndates, lines=lines, ordered=True)
 
 
 def batch_case(rng, ndates):
@@ -384,6 +420,8 @@ def generate(rng, tier):
     for nd in (3, 5, 25):
         for _ in range(max(4, n // 5)):
             yield batch_case(rng, nd)
+        for _ in range(max(4, n // 4)):
+            yield intraday_case(rng, nd)
     for nd in (3, 5, 25):
         for _ in range(n):
             yield history_case(rng, nd, True, rng.random() < 0.35)
@@ -423,7 +461,7 @@ def generate(rng, tier):
 # ---------------------------------------------------------------- implementation runner
 
 def new_state():
-    return dict(store=None, mode=None, frame=None, fstore=None)
+    return dict(store=None, mode=None, frame=None, fstore=None, ints=False)
 
 
 class _clock(object):
@@ -486,7 +524,10 @@ def _version(state, pairs, line):
     import zlib
     if state['mode'] is None:
         state['mode'] = 'frame' if zlib.crc32(line.encode()) % 3 == 0 else 'series'
-    s = _series(pairs)
+        state['ints'] = zlib.crc32(line.encode()) % 4 == 1
+    # on every fourth history a version without NaN is an int64 series (review s5): the stored column starts as int64 and turns
+    # float with the first NaN
+    s = _series(pairs, ints=state.get('ints', False))
     if state['mode'] == 'series':
         return s
     f = state['frame']
@@ -497,8 +538,10 @@ def _version(state, pairs, line):
     return state['frame']
 
 
-def _series(pairs):
+def _series(pairs, ints=False):
     idx = pd.DatetimeIndex([t for t, _ in pairs])
+    if ints and pairs and all(v is not None and int(v) == v for _, v in pairs):
+        return pd.Series([int(v) for _, v in pairs], index=idx, dtype=np.int64)
     return pd.Series([np.nan if v is None else float(v) for _, v in pairs], index=idx, dtype=float)
 
 
@@ -694,6 +737,14 @@ def _read(store, t2, what, spelling=None):
             for t, v in zip(r.index, r.values)}, len(r)
 
 
+def _rows(store):
+    """the rows of a store as (date index, stamp number, value | None)"""
+    from pyg_base._bitemporal import _updated, _series as col
+    return set((int((pd.Timestamp(t).to_pydatetime() - D0) // DAY), (pd.Timestamp(u).to_pydatetime() - S0) // DAY // 2,
+                None if v != v else (int(v) if float(v) == int(v) else float(v)))
+               for t, u, v in zip(store.index, store[_updated].values, store[col].values))
+
+
 def laws(rng, tier, ctx):
     from pyg_base._bitemporal import bi_merge, Bi
     count = 0
@@ -774,6 +825,33 @@ def laws(rng, tier, ctx):
                         if a != b and bad is None:
                             bad = ('law-remerge', lines + [merge_line(k, pairs), read_line(t, what)],
                                    're-merging version %d changed bi_read(asof=%s, what=%d): %s -> %s' % (j, t, what, a, b))
+            # idempotence for the REST of the history (theorems merge_idem_future, merge_idem_future_visible): re-merge a version that is
+            # in the store - also one stamped earlier than the last version -, merge further versions, and compare every read with the
+            # history that was not re-merged
+            # (candidates: versions whose values are NaN or the values visible as of their stamp - theorem merge_idem_future_visible; among
+            # them those whose rows are all rows of the store - merge_idem_future; a repeat row is compressed away and only visible)
+            rows = _rows(store)
+
+            def visible(k, pairs):
+                vis = _read(store, 2 * k, -1)[0]
+                return all(i in vis and (v is None or vis[i] == v) for i, v in pairs)
+            cands = [j for j, (k, pairs) in enumerate(hist) if pairs and (all((i, k, v) in rows for i, v in pairs) or visible(k, pairs))]
+            if cands:
+                j = rng.choice(cands)
+                k, pairs = hist[j]
+                later = [(hist[-1][0] + k2, ps) for k2, ps in gen_history(rng, nd, rng.choice([1, 2, 3]), True)]
+                a, b = store, bi_merge(store, Bi(_series([(date(i), v) for i, v in pairs]), stamp(2 * k)))
+                for k2, ps in later:
+                    new = lambda: Bi(_series([(date(i), v) for i, v in ps]), stamp(2 * k2))
+                    a, b = bi_merge(a, new()), bi_merge(b, new())
+                for t in read_times(hist + later):
+                    for what in (-1, 0):
+                        count += 1
+                        ra, rb = _read(a, t, what)[0], _read(b, t, what)[0]
+                        if ra != rb and bad is None:
+                            bad = ('law-remerge-future', lines + [merge_line(k, pairs)] + [merge_line(k2, ps) for k2, ps in later] + [read_line(t, what)],
+                                   're-merging version %d (its values are the ones visible as of its stamp) changed bi_read(asof=%s, what=%d) after %d further merges: %s -> %s'
+                                   % (j, t, what, len(later), ra, rb))
             if bad is not None:
                 yield Finding('violation', dict(tag=bad[0], lines=bad[1], atomic=True, ordered=True), bad[2])
             if first_bad is not None:
